@@ -60,6 +60,9 @@ CHECKS["C07"] = ("property-based testing (proptest) against exact solutions: con
 CHECKS["C14"] = ("property-based testing (proptest) against closed-form stiff problems; differential runs at kappa and kappa=1e2; Radau-vs-BDF agreement; linear invariants",
          "Stiff linear problems with exact solutions (triangular coupling up to kappa = 1e10, mixed basis up to 1e6) with O(1) initial transients, kinetics chains, Robertson and Van der Pol: Success, accuracy against the exact solution, step/evaluation counts compared with the same problem at kappa = 1e2, invariants, with analytic and finite-difference Jacobians.",
          "Mixed-basis family restricted to kappa <= 1e6, rtol >= 1e-6 (conditioning of the right-hand side itself); invariant limit includes the right-hand side's own rounding.", "DESIGN.md §4 C14")
+CHECKS["C15"] = ("differential / metamorphic property-based testing (proptest): equivalent formulations and storages of mass matrix and Jacobian, exact solutions for mass-matrix ODEs and index-1 DAEs",
+         "M y' = M g and index-1 DAEs built on closed-form ODEs are solved by Radau and compared with the exact solution and the constraint; Identity/Full/Banded mass storage, Full/Banded Jacobian storage (non-dominant couplings that force pivoting), high-level Options path vs low-level builder defaults and analytic vs finite-difference Jacobian are compared bit-for-bit or to tolerance.",
+         "Bound constants as C01; mass matrices diagonally dominant (cond <= 5).", "DESIGN.md §4 C15")
 PENDING = {}
 
 def main():
